@@ -47,6 +47,8 @@ def run(ctx):
     ctx.do(C16.rule_number_constants, rule_id="C06.canonical-form")
     from .hidden_state import rule_no_hidden_state
     ctx.do(rule_no_hidden_state, "C06.history-independence")
+    from .pitfalls import rule_loops_not_cut_short
+    ctx.do(rule_loops_not_cut_short, "C06.loops-complete")
 
 
 def rule_table(ctx):
